@@ -330,6 +330,20 @@ int main(int argc, char **argv)
         rc |= run_combo(&c, i, "redirect", 0);
       }
     }
+    // every stdin assignment x every shorthand mask (out/err unset) x input forms x fork/argv forms
+    for (long v = 0; v < 80; v++)
+      for (long m = 0; m < 16; m++) {
+        long base = m * 512000 + v;
+        if (base % nw != w) continue;
+        for (int in = 0; in < 4; in++)
+          for (int fk = 0; fk < 5; fk++) {
+            decode_redirect(base, &c);
+            c.input = in;
+            c.forkm = fk;
+            stats[in ? S_INPUT : S_FORK]++;
+            rc |= run_combo(&c, base * 20 + in * 5 + fk, "full", 0);
+          }
+      }
     // input forms x fork/argv forms x a covering sample of the redirect space
     long nsample = thorough ? 20000 : 2000;
     for (long k = 0; k < nsample / nw + 1; k++) {
